@@ -47,7 +47,7 @@ def stats_chain(r, coin, nb, mode):
 
 def explore(ck):
     r = ck.rng; quick = ck.tier == 'quick'
-    ck.rule = ('simplestats on chains built for: ties of both maxima inside one block and across blocks, non-monotonic timestamps incl. 0 and 2^32-1 (clamped gaps, sums beyond 2^32), all-zero values, deterministic gap and stored-size sums of 2..3 times 2^32, a script type holding 1 of 26 001 outputs (shares that round to 0.00 % and 100.00 %), every '
+    ck.rule = ('simplestats on chains built for: ties of both maxima inside one block and across blocks, non-monotonic timestamps incl. 0 and 2^32-1 (clamped gaps, sums beyond 2^32), all-zero values, deterministic gap and stored-size sums of 2..3 times 2^32, a coinbase paying 2^63 units and more (fee arithmetic is unsigned 64-bit), a script type holding 1 of 26 001 outputs (shares that round to 0.00 % and 100.00 %), every '
                'script type incl. first occurrences (and all of them in one range: the longest report), huge values, coinbase look-alikes, a largest transaction with over-long CompactSize encodings, ranges, heights at, next to and between the halving boundaries 210000*k and 13 440 000 (index windows starting there); every figure of the report is parsed and compared with '
                'the model (integers exactly, means as exact rationals within the printed rounding); get_mean and get_base_reward additionally through their hooks (sums around 2^32 and 2^53, every halving '
                'index 0..70), debug and release profile. Non-trivial: >= 2 blocks and >= 2 script types and (a tie for a maximum or a sum >= 2^32); distinct by case.')
@@ -80,6 +80,13 @@ def explore(ck):
         for h, b in enumerate(blocks[:4]):
             off = c.put_block(0, b.raw, size=[2**32 - 1, 2**31 + 5, 2**32 - 2, 3][h]); c.add_record(b, h, 0, off)      # the stored length prefix is what the block size figure reports
         cases.append(c)
+    # coinbase outputs at and above 2^63 (legal on disk; the fee figure is first output - subsidy in unsigned 64-bit arithmetic): one such coinbase per chain so that the totals stay below 2^64
+    for k, (coin, v_) in enumerate([('bitcoin', 0xC000000000000000), ('litecoin', 2**63), ('dogecoin', 2**63 + 25 * 10**8), ('testnet3', 2**64 - 1 - 200 * 10**8)][: (2 if quick else 4)] if not quick else [('bitcoin', 0xC000000000000000), ('litecoin', 2**63 + 25 * 10**8)]):
+        prev = b'\x00' * 32; blocks = []
+        for h in range(3):
+            outs = [(v_ if h == 1 else 50 * 10**8 + 7 * h, gen.script_zoo(r, 'p2pkh')[1]), (h, gen.script_zoo(r, 'p2sh')[1])]
+            b = Block(prev, [coinbase_tx(h, outs, extra=gen.rb(r, 2)), Tx([(gen.rb(r, 32), 0, b'', 0)], [(1000 + h, gen.script_zoo(r, 'p2pkh')[1])])], time=1300000000 + 600 * h); blocks.append(b); prev = b.hash
+        c = Case('bigfee%d' % k, coin).simple_layout(blocks); c.meta.update(mode='bigfee'); cases.append(c)
     # a share below 0.005 % and one above 99.995 %: more than 20 000 outputs of one type and a single output of another (the share is count/total*100 rounded to two decimals, whatever it rounds to)
     for k, (coin, nmany) in enumerate([('litecoin', 26000)] if quick else [('litecoin', 26000), ('bitcoin', 20001), ('namecoin', 40000)]):
         prev = b'\x00' * 32; blocks = []
